@@ -462,7 +462,58 @@ def p_reproject_crs(rc):
         if r is None or r.shape != want.shape or S.crs_key(r.crs) != S.CRS_TABLE[how] or S.crs_key(o.odc.crs) != S.CRS_TABLE[how]:
             return False, f"reproject({how!r}): geobox {r!r} crs {S.crs_key(o.odc.crs)}, expected {want!r}"
     bad = stale_attr_report(out)
-    return (not bad), "stale spatial attributes survive: " + ", ".join(bad)
+    return (not bad), ("stale spatial attributes survive: " + ", ".join(bad)) if bad else "ok"
+
+
+GRID_OPTS = {
+    # destination CRS -> option sets for compute_output_geobox; power-of-two resolutions with edge/centre
+    # snapping give dyadic grids (exact comparison of all six coefficients), shape=/tight= do not
+    "epsg:3857": [{"resolution": 2048}, {"resolution": 2000}, {"resolution": 4096, "anchor": "center"}, {"shape": [3, 4]},
+                  {"resolution": 8192, "tight": True}, {"resolution": 2048, "anchor": "floating"}],
+    "epsg:32633": [{"resolution": 1024}, {"resolution": 3000}, {"shape": [2, 5]}, {"resolution": 2048, "anchor": "center"}],
+    "epsg:4326": [{"resolution": 0.25}, {"resolution": 0.125, "anchor": "center"}, {"shape": [4, 3]}],
+}
+
+
+def p_reproject_opts(rc, gopts):
+    """how = CRS plus output-grid options (resolution / shape / anchor / tight): the requested grid is
+    src.odc.output_geobox(how, **opts).  DataArray: same shape, CRS, and the same six coefficients whenever
+    they are dyadic (exactness domain).  Dataset: EVERY variable recovers exactly the GeoBox the DataArray
+    variant recovers for it (identical float computations, so exact equality), the Dataset itself too, and the
+    option is honoured (resolution= gives exactly that pixel size, shape= exactly that shape)."""
+    import xarray as xr
+    src, _ = build_reproject_case(rc)
+    how = rc["dst"]["crs"]
+    kw = dict(gopts)
+    if "shape" in kw:
+        kw["shape"] = tuple(kw["shape"])
+    want = src.odc.output_geobox(how, **kw)
+    out = src.odc.reproject(how, **kw)
+    wkey = S.box_of(want)
+    exact = all(dyadic_small(v, 40) for v in wkey[3])
+    if isinstance(out, xr.Dataset):
+        named = [("Dataset", out, None)] + [(n, out[n], src[n].odc.reproject(how, **kw)) for n in ("a", "b")]
+    else:
+        named = [("DataArray", out, None)]
+    for n, o, ref in named:
+        r = o.odc.geobox
+        if r is None:
+            return False, f"{n}: no geobox after reproject({how!r}, **{gopts})"
+        got = S.box_of(r)
+        if got[1:3] != wkey[1:3] or got[-1] != wkey[-1]:
+            return False, (f"{n}: reproject({how!r}, **{gopts}) recovered shape {got[1:3]} crs {got[-1]}, "
+                           f"requested grid output_geobox(...) has shape {wkey[1:3]} crs {wkey[-1]}")
+        if "shape" in gopts and list(got[1:3]) != list(gopts["shape"]):
+            return False, f"{n}: shape= {gopts['shape']} not honoured: {got[1:3]}"
+        if "resolution" in gopts and exact and (abs(got[3][0]), abs(got[3][4])) != (S.F(gopts["resolution"]),) * 2:
+            return False, f"{n}: resolution= {gopts['resolution']} not honoured: pixel size {float(got[3][0])} x {float(got[3][4])}"
+        if exact and got != wkey:
+            return False, f"{n}: recovered {got}, requested grid {wkey}"
+        if ref is not None and S.box_of(ref.odc.geobox) != got:
+            return False, (f"variable {n}: Dataset variant recovered {got}, DataArray variant of the same variable "
+                           f"{S.box_of(ref.odc.geobox)} (options {gopts})")
+    bad = stale_attr_report(out)
+    return (not bad), ("stale spatial attributes survive: " + ", ".join(bad)) if bad else "ok"
 
 
 def p_affine_axis(xs, ys):
@@ -483,6 +534,7 @@ PREDICATES = {
     "history": lambda a: p_history(a["spec"], a["opts"], a["history"]),
     "reproject": lambda a: p_reproject(a["rc"]),
     "reproject_crs": lambda a: p_reproject_crs(a["rc"]),
+    "reproject_opts": lambda a: p_reproject_opts(a["rc"], a["grid"]),
     "affine_axis": lambda a: p_affine_axis([unfr(v) for v in a["xs"]], [unfr(v) for v in a["ys"]]),
 }
 
@@ -744,6 +796,24 @@ def gen_cases(out, tier):
                 add("ds_getitem", f"CGetItem {S.cxobj(S.snapshot(res))} {cstr(str(name))} (Some {S.cxobj(S.snapshot(res[name]))})", (str(rc), str(name)))
                 add("locate:reprojected_var", f"CLocate {cq(TOL)} {S.cxobj(S.snapshot(res[name]))} {S.cgeostate(S.geostate_of(res[name]))}", (str(rc), str(name), "loc"))
         add("locate:reprojected", f"CLocate {cq(TOL)} {S.cxobj(S.snapshot(res))} {S.cgeostate(S.geostate_of(res))}", (str(rc), "loc"))
+    # how = CRS with grid options: the requested grid is output_geobox(how, **opts) (oracle here, property C11); when it
+    # is dyadic the whole assembly is compared with the model run on that GeoBox
+    for i, (dst_crs, gopts) in enumerate([("epsg:3857", {"resolution": 2048}), ("epsg:3857", {"resolution": 4096, "anchor": "center"}),
+                                          ("epsg:32633", {"resolution": 1024}), ("epsg:3857", {"resolution": 2000})]):
+        for container in ("ds", "da"):
+            rc = gen_reproject_case(rng, container=container, dask=bool(i % 2))
+            rc["src"] = {"cls": "north_up", "shape": [3, 4], "affine": ["1/8", "0", fr(12 + i), "0", "-1/8", fr(10 * i + 5)], "crs": "epsg:4326"}
+            rc["attrs"], rc["ds_attrs"] = {"crs": "epsg:4326", "foo": "bar"}, {"crs": "epsg:4326"}
+            src, _ = build_reproject_case(rc)
+            want = S.box_of(src.odc.output_geobox(dst_crs, **gopts))
+            if not all(dyadic_small(v, 40) for v in want[3]):
+                out.count("discarded:inexact_output_geobox")
+                continue
+            res = src.odc.reproject(dst_crs, **gopts)
+            ctor = "CReprojDs" if container == "ds" else "CReprojDa"
+            add(f"reproject:how=crs+options:{container}",
+                f"{ctor} {cq(TOL)} {cq(ITOL)} {S.cxobj(S.snapshot(src))} {S.cgbox(want)} None (Ok {S.cxobj(S.snapshot(res))})",
+                (dst_crs, str(gopts), container, i))
     # error paths of the assembly
     from odc.geo.geobox import GeoBox
     from odc.geo.xr import xr_zeros
@@ -812,6 +882,41 @@ def search(out, tier):
                     if len(range(*slice(a, b, st).indices(n))) == 0:
                         continue
                     run("history", {"spec": spec, "opts": opts, "history": [{"op": "isel", "dim": dim, "slice": [a, b, st]}]})
+    # strided / reversed slices leaving EXACTLY 1, 2 or 3 pixels on an axis (the boundary of the one-label
+    # fallback of data_resolution_and_offset), alone, on both axes at once, and followed by other operations
+    for cls in ("north_up", "mirror_xy", "rot345", "gcp"):
+        spec = gen_geobox_spec(rng, cls, crs="epsg:3857")
+        spec["shape"] = [8, 9]
+        opts = {"ntime": None, "nband": None, "nodata": None, "name": "spatial_ref", "dask": cls == "mirror_xy",
+                "dtype": "int16", "user": {}}
+        per_axis = {}
+        for dim, n in (("y", 8), ("x", 9)):
+            got = {1: [], 2: [], 3: []}
+            for st in (2, 3, 4, 5, 7, -1, -2, -3, -4, -5, -7):
+                for a in (None, 0, 1, 2, n - 1, n - 2):
+                    for b in (None, n, n - 1, 0, 3, 4):
+                        m = len(range(*slice(a, b, st).indices(n)))
+                        if m in got and len(got[m]) < (3 if quick else 12) and [a, b, st] not in got[m]:
+                            got[m].append([a, b, st])
+            per_axis[dim] = got
+            for m, sl in got.items():
+                for s_ in sl:
+                    run("history", {"spec": spec, "opts": opts, "history": [{"op": "isel", "dim": dim, "slice": s_}]})
+                    run("history", {"spec": spec, "opts": opts,
+                                    "history": [{"op": "isel", "dim": dim, "slice": s_}, {"op": rng.choice(ELEM_OPS)},
+                                                {"op": "isel", "dim": dim, "slice": [None, None, -1]}]})
+        for my in (1, 2, 3):
+            for mx in (1, 2, 3):
+                run("history", {"spec": spec, "opts": opts,
+                                "history": [{"op": "isel", "dim": "y", "slice": rng.choice(per_axis["y"][my])},
+                                            {"op": "isel", "dim": "x", "slice": rng.choice(per_axis["x"][mx])},
+                                            {"op": rng.choice(["add", "astype", "pickle"])}]})
+    run("history", {"spec": {"cls": "north_up", "shape": [8, 9], "affine": ["2", "0", "10", "0", "-2", "20"], "crs": "epsg:3857"},
+                    "opts": {"ntime": None, "nband": None, "nodata": None, "name": "spatial_ref", "dask": False, "dtype": "int16", "user": {}},
+                    "history": [{"op": "isel", "dim": "y", "slice": [None, None, 4]}, {"op": "isel", "dim": "x", "slice": [None, None, 5]}]})
+    run("history", {"spec": {"cls": "north_up", "shape": [8, 9], "affine": ["2", "0", "10", "0", "-2", "20"], "crs": "epsg:3857"},
+                    "opts": {"ntime": None, "nband": None, "nodata": None, "name": "spatial_ref", "dask": False, "dtype": "int16", "user": {}},
+                    "history": [{"op": "isel", "dim": "y", "slice": [2, 4, None]}, {"op": "isel", "dim": "x", "slice": [None, None, -7]}]})
     # regular axes straight into affine_from_axis
     for _ in range(150 if quick else 2000):
         nx_, ny_ = rng.randint(2, 9), rng.randint(2, 9)
@@ -826,6 +931,33 @@ def search(out, tier):
         if rc["dst"]["crs"] == rc["src"]["crs"]:
             rc["dst"]["crs"] = "epsg:3857" if rc["src"]["crs"] != "epsg:3857" else "epsg:4326"
         run("reproject_crs", {"rc": rc})
+    # how = CRS with output-grid options, Dataset and DataArray, numpy and dask
+    k = 0
+    for dst_crs, optsets in GRID_OPTS.items():
+        for gopts in optsets:
+            for container in (("ds", "da") if quick else ("ds", "da", "ds")):
+                rc = gen_reproject_case(rng, container=container, dask=(k % 3) == 2)
+                k += 1
+                # a small footprint (~50 km) so that metre-sized pixels stay a few dozen per side
+                if dst_crs == "epsg:4326" or (k % 2 and dst_crs != "epsg:4326"):
+                    src_crs = "epsg:3857" if dst_crs != "epsg:3857" else "epsg:4326"
+                else:
+                    src_crs = "epsg:4326"
+                if src_crs == "epsg:4326":
+                    rc["src"] = {"cls": "north_up", "shape": [rng.choice([2, 3, 5]), rng.choice([2, 4, 6])],
+                                 "affine": ["1/8", "0", fr(rng.randint(12, 15)), "0", "-1/8", fr(rng.randint(0, 40))], "crs": src_crs}
+                else:
+                    rc["src"] = {"cls": "north_up", "shape": [rng.choice([1, 3, 5]), rng.choice([2, 4, 6])],
+                                 "affine": ["8192", "0", fr(rng.randint(170, 210) * 8192), "0", "-8192", fr(rng.randint(0, 400) * 8192)],
+                                 "crs": src_crs}
+                if rc["attrs"].get("crs"):
+                    rc["attrs"]["crs"] = src_crs
+                if rc["ds_attrs"].get("crs"):
+                    rc["ds_attrs"]["crs"] = src_crs
+                if rc["src"]["shape"][0] == 1 and "grid_mapping" in rc["ds_attrs"]:
+                    rc["ds_attrs"] = {}
+                rc["dst"] = dict(rc["dst"], crs=dst_crs)
+                run("reproject_opts", {"rc": rc, "grid": gopts})
 
 
 # ---------------------------------------------------------------- entry points
@@ -848,12 +980,20 @@ def run(out, tier, scratch):
         "inputs whose labels are not exact are discarded and counted, never reported",
         "pixel values (rasterio warp, dask graph) are not modelled: only the coordinates/attributes/encoding assembly of the reprojection output",
     ]
-    cases = gen_cases(out, tier)
-    fails, log = core.coq_eval_failures(REQ, "case", "check", cases, scratch, shard=40)
-    detail = ""
-    if fails:
-        detail = "model and implementation differ on: " + " | ".join(cases[i][:1500] for i in fails[:3])
-    out.oblige("correspondence:Model.XrCoords vs odc.geo._xr_interop/math/geobox", "correspondence", not fails, detail)
+    # the failing-input search must run whatever happens to the correspondence part: a change that makes the
+    # implementation raise while cases are generated is itself a finding the predicates have to pin down
+    try:
+        cases = gen_cases(out, tier)
+        fails, log = core.coq_eval_failures(REQ, "case", "check", cases, scratch, shard=40)
+        detail = ""
+        if fails:
+            detail = "model and implementation differ on: " + " | ".join(cases[i][:1500] for i in fails[:3])
+        out.oblige("correspondence:Model.XrCoords vs odc.geo._xr_interop/math/geobox", "correspondence", not fails, detail)
+    except core.ModelEvalError as e:
+        out.oblige("model-evaluation", "correspondence", False, e.log)
+    except Exception:  # pylint: disable=broad-except
+        import traceback
+        out.oblige("correspondence:case generation on the implementation", "correspondence", False, traceback.format_exc())
     search(out, tier)
 
 
